@@ -60,14 +60,26 @@ class Cfg:
         r = self.reach(src, blocked_nodes=set(through), blocked_edges=blocked_edges)
         return not any(d in r for d in dst)
 
+    def reach_entry_sens(self, blocked_nodes=(), blocked_edges=()):
+        """blocks reachable from the entry with the given edges removed, infeasible branches pruned (see vlib/absval.py);
+        the plain graph is tried first because it is cheaper and already an upper bound"""
+        r = self.reach(0, blocked_nodes, blocked_edges)
+        key = (tuple(sorted(blocked_nodes)), tuple(sorted(map(str, blocked_edges))))
+        if not hasattr(self, "_res"): self._res = {}
+        if key not in self._res:
+            from . import absval
+            if getattr(self, "_du", None) is None: self._du = DefUse(self.body)
+            self._res[key] = absval.sens_reach(self, self._du, [(0, {})], blocked_nodes, blocked_edges) & r
+        return self._res[key]
+
     def edge_dominates(self, edge, node):
         """node is unreachable from entry unless `edge` (src,label,dst) is taken"""
-        r = self.reach(0, blocked_edges={edge})
-        return node not in r
+        if node not in self.reach(0, blocked_edges={edge}): return True
+        return node not in self.reach_entry_sens(blocked_edges={edge})
 
     def edges_dominate(self, edges, node):
-        r = self.reach(0, blocked_edges=set(edges))
-        return node not in r
+        if node not in self.reach(0, blocked_edges=set(edges)): return True
+        return node not in self.reach_entry_sens(blocked_edges=set(edges))
 
     def reachable_from_entry(self):
         return self.reach(0)
@@ -92,8 +104,11 @@ class Cfg:
         return dom
 
     def dominates(self, a, b):
+        """every feasible path from the entry to b passes a (plain dominators first; then with infeasible branches pruned)"""
         d = self.dominators()
-        return b in d and a in d[b]
+        if b in d and a in d[b]: return True
+        if b not in d: return False
+        return a != b and b not in self.reach_entry_sens(blocked_nodes={a})
 
     # ---- exits -----------------------------------------------------------
     def returns(self):
@@ -186,13 +201,25 @@ class Slice:
         self.du = du or DefUse(body)
         self.pt = tuple(pass_through) + tuple(extra_pass)
 
+    @staticmethod
+    def _np(p):
+        """normalised projection: derefs dropped, `.idx#name` -> `.idx`, `as Variant#idx` -> `as Variant`"""
+        out = []
+        for e in p:
+            if e == "*": continue
+            if e.startswith(".") or e.startswith("as "): e = e.split("#")[0]
+            out.append(e)
+        return tuple(out)
+
     def origins(self, place_or_op, follow_agg=True, max_steps=4000):
         start = place_or_op
         if hasattr(start, "kind") and hasattr(start, "const"):   # Op
             if start.is_const: return [("const", start)]
             start = start.place
+        np = self._np
+        down = lambda p: p[0][3:] if p and p[0].startswith("as ") else None
         out = []; seen = set()
-        work = [(start.l, tuple(e for e in start.p if e != "*"))]
+        work = [(start.l, np(start.p))]
         through = []
         steps = 0
         while work:
@@ -209,11 +236,31 @@ class Slice:
                     out.append(("arg", d)); continue
                 if k == "call":
                     t = d
+                    if t.dest is not None and t.dest.p: 
+                        # the call writes a part of l only
+                        dp = np(t.dest.p)
+                        if dp and proj and dp[0].startswith(".") and proj[0].startswith(".") and dp[0] != proj[0]: continue
+                    # `?`, unwrap and friends: map the requested part of the result to the part of the argument it comes from
+                    if not t.callee.indirect and t.args and t.args[0].place is not None and not (t.dest is not None and t.dest.p):
+                        n = t.callee.name; st = t.callee.impl_self or ""
+                        a0 = t.args[0].place; ap = np(a0.p)
+                        inner = "as Ok" if "Result" in st else "as Some" if "Option" in st else None
+                        if n == "branch" and "Try" in (t.callee.path + str(t.callee.trait)) and inner and proj:
+                            if down(proj) == "Continue" and len(proj) >= 2 and proj[1] == ".0":
+                                through.append(t); work.append((a0.l, ap + (inner, ".0") + proj[2:])); continue
+                            if down(proj) == "Break" and len(proj) >= 2 and proj[1] == ".0":
+                                through.append(t); work.append((a0.l, ap + proj[2:])); continue
+                        if n == "from_residual" and down(proj) in ("Ok", "Some"):
+                            through.append(t); continue          # a residual never carries a success value
+                        if n in ("unwrap", "expect") and inner and "std::" in t.callee.path and t.callee.matches(*self.pt):
+                            through.append(t); work.append((a0.l, ap + (inner, ".0") + proj)); continue
+                        if n == "map_err" and down(proj) == "Ok" and t.callee.matches(*self.pt):
+                            through.append(t); work.append((a0.l, ap + proj)); continue
                     if not t.callee.indirect and t.callee.matches(*self.pt):
                         through.append(t)
                         for a in t.args:
                             if a.place is not None:
-                                work.append((a.place.l, tuple(e for e in a.place.p if e != "*")))
+                                work.append((a.place.l, np(a.place.p)))
                             else:
                                 out.append(("const", a))
                     else:
@@ -221,39 +268,41 @@ class Slice:
                     continue
                 s = d
                 if s.kind == "setdiscr": continue
-                lp = tuple(e for e in s.lhs.p if e != "*")
+                lp = np(s.lhs.p)
                 # partial write to a different field: skip when provably disjoint
-                if lp and proj and lp[0].startswith(".") and proj[0].startswith(".") and lp[0] != proj[0] \
-                   and not any(e.startswith("as ") for e in (lp[0], proj[0])):
+                if lp and proj and lp[0].startswith(".") and proj[0].startswith(".") and lp[0] != proj[0]:
                     continue
                 rest = proj[len(lp):] if proj[:len(lp)] == lp else ()
                 if s.rv in ("use", "cast", "repeat"):
                     o = s.ops[0]
                     if o.is_const: out.append(("const", o))
-                    else: work.append((o.place.l, tuple(e for e in o.place.p if e != "*") + rest))
+                    else: work.append((o.place.l, np(o.place.p) + rest))
                 elif s.rv in ("ref", "rawptr", "discr"):
                     rp = s.rplace
-                    work.append((rp.l, tuple(e for e in rp.p if e != "*") + rest))
+                    work.append((rp.l, np(rp.p) + rest))
                     if s.rv == "discr": through.append(s)
                 elif s.rv == "agg":
                     if not follow_agg:
                         out.append(("agg", s)); continue
                     sel = None
-                    # strip a leading downcast, then a field selector
+                    # strip a leading downcast (an aggregate of another variant cannot be what is read), then a field selector
                     r = list(rest)
-                    if r and r[0].startswith("as "): r = r[1:]
+                    if r and r[0].startswith("as "):
+                        want = r[0][3:]
+                        if isinstance(s.agg, dict) and s.agg.get("variant") and s.agg.get("variant") != want: continue
+                        r = r[1:]
                     if r and r[0].startswith("."):
-                        try: sel = int(r[0][1:].split("#")[0])
+                        try: sel = int(r[0][1:])
                         except ValueError: sel = None
                     if sel is not None and sel < len(s.ops):
                         o = s.ops[sel]
                         if o.is_const: out.append(("const", o))
-                        else: work.append((o.place.l, tuple(e for e in o.place.p if e != "*") + tuple(r[1:])))
+                        else: work.append((o.place.l, np(o.place.p) + tuple(r[1:])))
                     else:
                         if not s.ops: out.append(("agg", s))
                         for o in s.ops:
                             if o.is_const: out.append(("const", o))
-                            else: work.append((o.place.l, tuple(e for e in o.place.p if e != "*")))
+                            else: work.append((o.place.l, np(o.place.p)))
                         through.append(s)
                 elif s.rv in ("bin", "un"):
                     out.append(("bin", s))
